@@ -724,3 +724,76 @@ func (ls *Lockset) accessesInScope(key string, fn *ssa.Function) []Access {
 	}
 	return res
 }
+
+// noStrayCompaction: a list-typed state field of one of the owners is never used
+// as the backing array of another list. "x := f[:0]; x = append(x, …)" (and the
+// in-place routines of package slices) overwrite the elements of f; that is only
+// consistent when the result replaces f in the same function (an in-place filter
+// — whether f may be filtered in place at all is escapedListsImmutable's
+// question). A result that is returned or kept elsewhere leaves f with shifted,
+// duplicated elements under its old length.
+func noStrayCompaction(p *Prog, ls *Lockset, r *Report, rule string, owners map[string]bool) {
+	nFields := 0
+	for _, key := range sortedKeys(ls.Accesses) {
+		owner := strings.SplitN(key, ".", 2)[0]
+		if owners != nil && !owners[owner] {
+			continue
+		}
+		accs := ls.Accesses[key]
+		if len(accs) == 0 || accs[0].Field == nil {
+			continue
+		}
+		fld := accs[0].Field
+		if _, isSl := fld.Type().Underlying().(*types.Slice); !isSl {
+			continue
+		}
+		nFields++
+		bad := 0
+		seenFn := map[*ssa.Function]bool{}
+		for _, a := range accs {
+			fn := a.Ins.Parent()
+			if fn == nil || seenFn[fn] {
+				continue
+			}
+			seenFn[fn] = true
+			storedBack := func() bool {
+				for _, b := range fn.Blocks {
+					for _, ins := range b.Instrs {
+						if st, ok := ins.(*ssa.Store); ok {
+							if fa, ok := st.Addr.(*ssa.FieldAddr); ok && fieldOfAddr(fa) == fld && resliceOfField(st.Val, fld, 0) {
+								return true
+							}
+						}
+					}
+				}
+				return false
+			}
+			for _, b := range fn.Blocks {
+				for _, ins := range b.Instrs {
+					c, ok := ins.(*ssa.Call)
+					if !ok {
+						continue
+					}
+					how := ""
+					if builtinName(&c.Call) == "append" && len(c.Call.Args) > 0 && resliceOfField(c.Call.Args[0], fld, 0) {
+						how = "append to a reslice"
+					}
+					if callee := c.Call.StaticCallee(); callee != nil && len(c.Call.Args) > 0 {
+						if set := inPlaceRoutines[fnPkgPath(callee)]; set != nil && set[originName(callee)] && loadsField(c.Call.Args[0], fld) && fnPkgPath(callee) == "slices" && !strings.HasPrefix(originName(callee), "Sort") {
+							how = "slices." + originName(callee)
+						}
+					}
+					if how == "" || storedBack() {
+						continue
+					}
+					bad++
+					r.Fail(rule, fmt.Sprintf("field:%s|fn:%s|%s", key, FnName(originOf(fn)), how), p.InstrPos(c), fmt.Sprintf("%s of %s overwrites the elements of the stored list, but the result does not replace the field: the stored list keeps its old length over shifted elements (entries lost, others duplicated)", how, key))
+				}
+			}
+		}
+		if bad == 0 {
+			r.Pass(rule, "field:"+key, "", "never used as the backing array of another list")
+		}
+	}
+	r.Floor(rule, "list-typed state fields examined", nFields, 1)
+}
